@@ -81,10 +81,12 @@ Theorem C01_after_cache_faults : forall (H : str -> str), (forall a b, H a = H b
 Proof. exact c01_after_cache_faults. Qed.
 Print Assumptions C01_after_cache_faults.
 
-(* without [key_faithful] the statement is false of the model: a byte moves from the end of
-   input file a to the start of input file b (the key concatenates file contents unframed), the
-   second build is a Hit and serves the bytes of the first state *)
-Theorem C01_incremental_equals_clean_refuted :
+(* without [key_faithful] the statement is false of the model, whatever the key encoding: what a command
+   writes ([td_salt], [td_beh]) is a field of the model's target that the command text in the key does not
+   determine.  Two snapshots that differ only in the salt share their key; the second build is a Hit and
+   serves the bytes of the first.  (The former witness -- a byte moving across the boundary of two input
+   files, finding C01-F2 -- is gone with the framed key encoding: C09_injective.) *)
+Theorem C01_incremental_equals_clean_needs_key_faithful :
   exists (H : str -> str) ops cfg roots ext' i t o,
     (forall a b, H a = H b -> a = b) /\ Forall op_ok ops /\ cfg_ok cfg /\
     let y := run_history H ops in
@@ -93,8 +95,8 @@ Theorem C01_incremental_equals_clean_refuted :
     node_at (sy_src y) i = Some (NTarget t) /\ In o (td_outs t) /\
     nth i (br_status r) TNone = THit /\ nth i (br_status rc) TNone = TExecuted /\
     ws_get (out_path t o) (w_ws (br_world r)) <> ws_get (out_path t o) (w_ws (br_world rc)).
-Proof. exact c01_refuted. Qed.
-Print Assumptions C01_incremental_equals_clean_refuted.
+Proof. exact c01_needs_key_faithful. Qed.
+Print Assumptions C01_incremental_equals_clean_needs_key_faithful.
 
 (* every guard holds of a concrete history (target a, an alias of a, target b depending on the
    alias): build; edit a's input; build (a and b re-execute); a's blob and a's output are lost;
